@@ -35,6 +35,21 @@ COMMON_ASSUMPTIONS = [
     "verdicts are relative to the enumerated alphabet and bounds listed under coverage.configurations[].bounds",
 ]
 
+# The configurations every functional property runs in its quick tier: the default build (AVX2 dispatch), the serial
+# algorithms inside that build, the 32-bit backend with and without precomputed tables (the tables-off code paths are
+# different code), and the IFMA build.  Earlier seeds showed that any of these left out of a quick tier is a blind spot.
+QSET = [R("simd"), R("simd", dispatch="serial"), R("serial32"), R("serial32", "rel-notables"), R("avx512")]
+
+
+
+def T(lst):
+    """A thorough run list, completed with whatever member of the quick standard set (and the tables-off serial
+    dispatch of the default build) it does not already contain."""
+    have = [(r["config"], r["variant"], r.get("dispatch", "auto")) for r in lst]
+    extra = [q for q in QSET + [R("simd", "rel-notables", dispatch="serial")] if (q["config"], q["variant"], q.get("dispatch", "auto")) not in have]
+    return lst + extra
+
+
 PROPS = {}
 NOT_APPLICABLE = {}
 ENGINES = [
@@ -86,8 +101,7 @@ PROPS["C03"] = _std(
     "Explicit-state exploration of group-operation histories on the real EdwardsPoint representation against the affine twisted-Edwards law, with torsion and exceptional points in the alphabet; decoder enumerated on structured encodings.",
     "DESIGN.md section 4, C03",
     "explicit-state BFS (stateright) over real point representations + decoder alphabet enumeration against the affine group law",
-    lambda tier: [R("simd"), R("simd", dispatch="serial"), R("serial32"), R("avx512")] if tier == "quick" else
-                 [R("simd", deep=True), R("simd", dispatch="serial"), R("serial32"), R("serial64"), R("fiat64"), R("fiat32"), R("avx512"), R("avx512", dispatch="avx2")],
+    lambda tier: QSET if tier == "quick" else T([R("simd", deep=True), R("simd", dispatch="serial"), R("serial32"), R("serial64"), R("fiat64"), R("fiat32"), R("avx512"), R("avx512", dispatch="avx2")]),
 )
 
 PROPS["C04"] = _std(
@@ -99,10 +113,9 @@ PROPS["C04"] = _std(
     "Exhaustive over a structured scalar/point/size alphabet that covers every state of each recoding transducer and every algorithm switch; each backend's copy via forced dispatch.",
     "DESIGN.md section 4, C04",
     "exhaustive enumeration of recoding-transducer states and size regimes against a reference model, per backend copy (forced dispatch)",
-    lambda tier: [R("simd"), R("simd", dispatch="serial"), R("serial32", "rel-notables"), R("avx512")] if tier == "quick" else
-                 [R("simd"), R("simd", dispatch="serial"), R("simd", "rel-notables"), R("simd", "rel-notables", dispatch="serial"),
+    lambda tier: QSET if tier == "quick" else T([R("simd"), R("simd", dispatch="serial"), R("simd", "rel-notables"), R("simd", "rel-notables", dispatch="serial"),
                   R("serial32"), R("serial32", "rel-notables"), R("serial64"), R("fiat64"), R("fiat32"),
-                  R("avx512"), R("avx512", dispatch="avx2"), R("avx512", dispatch="serial"), R("avx512", "rel-notables")],
+                  R("avx512"), R("avx512", dispatch="avx2"), R("avx512", dispatch="serial"), R("avx512", "rel-notables")]),
 )
 
 
@@ -113,7 +126,7 @@ PROPS["C06"] = _std(
     "Explicit-state exploration of Ristretto operation histories and coset representatives against a transcription of RFC 9496; decoder/one-way-map enumerated on structured alphabets.",
     "DESIGN.md section 4, C06",
     "explicit-state BFS over real representatives + alphabet enumeration against an RFC 9496 transcription",
-    lambda tier: [R("simd"), R("serial32")] if tier == "quick" else [R("simd", deep=True), R("simd", dispatch="serial"), R("serial32", deep=True), R("serial64"), R("fiat64"), R("fiat32"), R("avx512")],
+    lambda tier: QSET if tier == "quick" else T([R("simd", deep=True), R("simd", dispatch="serial"), R("serial32", deep=True), R("serial32", "rel-notables"), R("serial64"), R("fiat64"), R("fiat32"), R("avx512")]),
 )
 
 PROPS["C07"] = _std(
@@ -123,7 +136,7 @@ PROPS["C07"] = _std(
     "Exhaustive over structured (k, u) alphabets and all short bit strings against the RFC 7748 ladder, which shares no code or formulas with the Edwards arithmetic.",
     "DESIGN.md section 4, C07",
     "exhaustive alphabet enumeration against an RFC 7748 transcription",
-    lambda tier: [R("simd"), R("serial32"), R("simd", "rel-legacy"), R("simd", "rel-nozeroize")] if tier == "quick" else [R(b) for b in ALL_BACKENDS] + [R("simd", "rel-notables"), R("simd", dispatch="serial"), R("simd", "rel-legacy"), R("serial32", "rel-legacy"), R("simd", "rel-nozeroize"), R("serial32", "rel-nozeroize")],
+    lambda tier: QSET + [R("simd", "rel-legacy"), R("simd", "rel-nozeroize"), R("simd", "rel-notables", dispatch="serial")] if tier == "quick" else T([R(b) for b in ALL_BACKENDS] + [R("simd", "rel-notables"), R("simd", dispatch="serial"), R("simd", "rel-legacy"), R("serial32", "rel-legacy"), R("simd", "rel-nozeroize"), R("serial32", "rel-nozeroize")]),
 )
 
 PROPS["C08"] = _std(
@@ -133,7 +146,7 @@ PROPS["C08"] = _std(
     "Explicit-state exploration of (key, message, context, signature) tuples within mutation distance 2 of honest ones, plus exhaustive signing alphabets, against an RFC 8032 transcription self-tested on the RFC vectors.",
     "DESIGN.md section 4, C08",
     "explicit-state BFS over verification tuples + exhaustive signing alphabet against an RFC 8032 transcription",
-    lambda tier: [R("simd"), R("serial32", "rel-notables"), R("simd", dispatch="serial"), R("avx512")] if tier == "quick" else [R(b, deep=(b == "simd")) for b in ALL_BACKENDS] + [R("simd", "rel-notables"), R("simd", dispatch="serial")],
+    lambda tier: QSET if tier == "quick" else T([R(b, deep=(b == "simd")) for b in ALL_BACKENDS] + [R("simd", "rel-notables"), R("simd", dispatch="serial")]),
 )
 
 PROPS["C09"] = _std(
@@ -143,7 +156,7 @@ PROPS["C09"] = _std(
     "Exhaustive over a structured adversarial alphabet that contains accepting small-order/mixed-order cases by construction; with and without legacy_compatibility.",
     "DESIGN.md section 4, C09",
     "exhaustive adversarial-alphabet enumeration against the documented acceptance rule",
-    lambda tier: [R("simd"), R("simd", "rel-legacy"), R("simd", dispatch="serial"), R("serial32", "rel-notables"), R("avx512")] if tier == "quick" else [R("simd"), R("simd", "rel-legacy"), R("simd", dispatch="serial"), R("serial32"), R("serial32", "rel-legacy"), R("serial32", "rel-notables"), R("serial64"), R("fiat64"), R("fiat32"), R("avx512"), R("avx512", dispatch="avx2")],
+    lambda tier: QSET + [R("simd", "rel-legacy")] if tier == "quick" else T([R("simd"), R("simd", "rel-legacy"), R("simd", dispatch="serial"), R("serial32"), R("serial32", "rel-legacy"), R("serial32", "rel-notables"), R("serial64"), R("fiat64"), R("fiat32"), R("avx512"), R("avx512", dispatch="avx2")]),
 )
 
 
@@ -179,7 +192,7 @@ PROPS["C13"] = _std(
     "Explicit-state exploration of batch construction histories against the conjunction of RFC 8032 single verifications.",
     "DESIGN.md section 4, C13",
     "explicit-state BFS over batch histories against a reference model",
-    lambda tier: [R("simd"), R("simd", dispatch="serial")] if tier == "quick" else [R("simd", deep=True), R("simd", dispatch="serial"), R("serial32"), R("fiat64"), R("avx512"), R("avx512", dispatch="avx2")],
+    lambda tier: [R("simd"), R("simd", dispatch="serial"), R("serial32", "rel-notables"), R("avx512")] if tier == "quick" else T([R("simd", deep=True), R("simd", dispatch="serial"), R("serial32"), R("fiat64"), R("avx512"), R("avx512", dispatch="avx2")]),
 )
 
 PROPS["C15"] = _std(
@@ -395,12 +408,18 @@ ENGINES.append({"name": "ct (valgrind lackey + trace cutter)", "path": "/verif/c
                 "kind_free_text": "release trace subject built without hooks, run under valgrind --tool=lackey --trace-mem=yes; ct-cut hashes the marker-delimited (instruction, address) trace"})
 
 
+def _fx_post(pid, tier, partials, scratch, bins):
+    import fx
+    return fx.post(pid, tier, partials, scratch, bins)
+
+
 PROPS["C14"] = _std(
     "model_checking",
     "(i) for each secret-holding type (SigningKey, ExpandedSecretKey, EphemeralSecret, ReusableSecret, StaticSecret, SharedSecret) every operation sequence of bounded length over {create in a Box, clone, use by reference, explicit zeroize, drop} on up to 3 registers, followed by dropping everything, executed with a heap observer (global allocator that copies every block at dealloc): no 8-byte window of any secret string may occur in any freed block; positive control: an unwiped boxed array must be seen; "
-    "(ii) explicit zeroisation of scalars, points, compressed forms; (iii) constant-time multiscalar_mul and Scalar::batch_invert for every n of the list with seven secret vectors: freed blocks identical across secrets and free of digit strings / scalar bytes / Montgomery partial products. states = lifecycles (histories), transitions = operations executed.",
+    "(ii) explicit zeroisation of scalars, points, compressed forms; (iii) constant-time multiscalar_mul and Scalar::batch_invert for every n of the list with seven secret vectors: freed blocks identical across secrets and free of digit strings / scalar bytes / Montgomery partial products. states = lifecycles (histories), transitions = operations executed. In addition the secret-holding types are taken through create/use/clone/drop on a small binary built once per subset of the cargo features that gate them (coverage.feature_lattice).",
     "Exhaustive enumeration of bounded create/clone/use/zeroize/drop histories with an allocator-level observer; differential freed-heap comparison across secrets under every dispatch.",
     "DESIGN.md section 4, C14",
     "exhaustive enumeration of object lifecycles under a heap observer + differential freed-block comparison",
     lambda tier: [R("simd"), R("simd", dispatch="serial"), R("serial32"), R("avx512")] if tier == "quick" else [R("simd"), R("simd", dispatch="serial"), R("serial32"), R("fiat64"), R("fiat32"), R("avx512"), R("avx512", dispatch="avx2"), R("avx512", dispatch="serial")],
+    post=_fx_post,
 )
